@@ -18,6 +18,7 @@
 package zzverifrt
 
 import (
+	"fmt"
 	"os"
 	"reflect"
 	"runtime"
@@ -184,25 +185,81 @@ func MapEntries[K ~string, V any](m map[K]V, site int32) []Entry[K, V] {
 	return es
 }
 
-// MapEntriesAny is the fallback for maps whose key is not a string kind: the
-// order is by the keys' printed form.
-func MapEntriesAny[K comparable, V any](m map[K]V, site int32, less func(a, b K) bool) []Entry[K, V] {
+// MapEntriesAny is the fallback for maps whose key is not a string kind
+// (none in the unchanged tree; a change may introduce one). The canonical
+// order is by a rendering of the key that does not depend on addresses where
+// one exists (numbers, strings, anything with an Ident() method); keys without
+// one (bare pointers) tie and stay in Go's own order for that visit, which is
+// then not the simulator's to replay - the order is still permuted, so a
+// result that depends on it still differs between loads.
+func MapEntriesAny[K comparable, V any](m map[K]V, site int32) []Entry[K, V] {
 	if len(m) == 0 {
 		return nil
 	}
 	es := make([]Entry[K, V], 0, len(m))
+	ks := make([]string, 0, len(m))
 	for k, v := range m {
 		es = append(es, Entry[K, V]{k, v})
 	}
-	sort.Slice(es, func(i, j int) bool { return less(es[i].K, es[j].K) })
-	if p := order(site, len(es)); p != nil {
-		out := make([]Entry[K, V], len(es))
+	for i := range es {
+		ks = append(ks, keyString(es[i].K))
+	}
+	idx := make([]int, len(es))
+	for i := range idx {
+		idx[i] = i
+	}
+	sort.SliceStable(idx, func(i, j int) bool { return ks[idx[i]] < ks[idx[j]] })
+	sorted := make([]Entry[K, V], len(es))
+	for i, j := range idx {
+		sorted[i] = es[j]
+	}
+	if p := order(site, len(sorted)); p != nil {
+		out := make([]Entry[K, V], len(sorted))
 		for i, j := range p {
-			out[i] = es[j]
+			out[i] = sorted[j]
 		}
 		return out
 	}
-	return es
+	return sorted
+}
+
+func keyString(k interface{}) string {
+	v := reflect.ValueOf(k)
+	if !v.IsValid() {
+		return ""
+	}
+	switch v.Kind() {
+	case reflect.String:
+		return v.String()
+	case reflect.Int, reflect.Int8, reflect.Int16, reflect.Int32, reflect.Int64:
+		return fmt.Sprintf("%020d", uint64(v.Int())+(1<<63))
+	case reflect.Uint, reflect.Uint8, reflect.Uint16, reflect.Uint32, reflect.Uint64, reflect.Uintptr:
+		return fmt.Sprintf("%020d", v.Uint())
+	case reflect.Bool:
+		return fmt.Sprint(v.Bool())
+	case reflect.Float32, reflect.Float64:
+		return fmt.Sprintf("%030.9f", v.Float()+1e18)
+	case reflect.Ptr, reflect.Interface:
+		if v.IsNil() {
+			return ""
+		}
+		if x, ok := k.(interface{ Ident() string }); ok {
+			return identOf(x)
+		}
+		return ""
+	case reflect.Struct, reflect.Array:
+		return fmt.Sprintf("%v", k)
+	}
+	return ""
+}
+
+func identOf(x interface{ Ident() string }) (s string) {
+	defer func() {
+		if recover() != nil {
+			s = ""
+		}
+	}()
+	return x.Ident()
 }
 
 // MapKeys replaces reflect.Value.MapKeys(): canonical order, then permuted.
